@@ -10,24 +10,26 @@ CHECK = {
         "type_Vector2f", "type_Vector2d", "type_Vector3f", "type_Vector3d",
         "type_Homogeneous2f", "type_Homogeneous2d", "type_Homogeneous3f", "type_Homogeneous3d",
         "set_uniform", "set_clustered", "set_collinear", "set_coplanar", "set_lattice", "set_identical",
-        "set_duplicates", "set_multiscale",
+        "set_duplicates", "set_multiscale", "set_large_offset",
         "n_1", "n_2_9_below_leaf", "n_10_11_leaf_boundary", "n_12_200", "n_201_2000", "n_2001_5000",
         "query_inside", "query_on_data_point", "query_near_data_point", "query_far_outside", "query_outside",
-        "query_bbox_corner_face", "query_midpoint_tie"],
+        "query_bbox_corner_face", "query_midpoint_tie", "query_extreme_far"],
     "required_oracles": ["knn.index_in_range", "knn.indices_distinct", "knn.ascending",
                          "knn.distance_of_indexed_point", "knn.jth_distance_vs_bruteforce",
                          "nn.index_in_range", "nn.distance_of_indexed_point", "nn.distance_vs_bruteforce"],
     "required_counters": ["queries", "knn_outputs_checked", "queries_with_tie_at_kth_boundary",
                           "queries_with_exact_ties_among_k_plus_1", "queries_at_zero_distance",
-                          "queries_with_reused_buffers", "sets_with_exact_duplicates"],
+                          "queries_with_reused_buffers", "sets_with_exact_duplicates",
+                          "queries_with_all_sqdist_above_2pow64"],
     "rule": "case = one point set + 40 queries. Point type drawn from the 8 types (homogeneous w = 1); n from "
             "{1, 2..9 (< leaf size), 10..11, 12..200, 201..2000, 2001..5000 (5000 itself included)}; set from {uniform box, "
             "1..6 Gaussian clusters, collinear (axis-aligned exact / oblique), coplanar or axis-degenerate, integer lattice "
             "1..7 cells per axis (exact duplicates and ties), all identical, uniform with exact duplicates, nested multiscale "
-            "clusters}, scale log-uniform 1e-3..1e3, centre 0 / +-10 / +-1e3 scales / dyadic; query from {inside the box, "
+            "clusters}, scale log-uniform 1e-3..1e3, centre 0 / +-10 / +-1e3 scales / dyadic / unit-spaced set translated by 1e5..1e9 per axis; query from {inside the box, "
             "exactly a data point, a data point moved by 0..3 ulps or 1e-6..1e-2 extents, 1e3..2e3 extents outside along an "
             "axis / the set's line / a box diagonal / a random direction, 0.6..100 extents outside, box corners-faces-centre, "
-            "midpoint of two data points (exact tie)}; k from {1, min(n,50), uniform 1..min(n,50)}; output buffers "
+            "midpoint of two data points (exact tie), absolute distance log-uniform 1e3..1e16 from the set (squared distances up to "
+            "~1e32, beyond 2^64)}; k from {1, min(n,50), uniform 1..min(n,50)}; output buffers "
             "caller-sized (capacity == k) and either sentinel-filled or left holding the previous query's results; "
             "non-trivial = n > 10 (a tree with at least one split; every case has queries that are not data points)",
     "level_text": "exploration: the real KdTree (all 8 point-type instantiations, vendored nanoflann index) is built on "
@@ -43,7 +45,8 @@ CHECK = {
         "'exactly the k smallest' is read to rounding of the point type's Scalar: reported distance within 2(DIM+2) eps of "
         "the indexed point's true squared distance (4x the a-priori bound of the evaluation), j-th reported distance within "
         "16 eps of the j-th smallest true one; ties may be returned in any order",
-        "finite coordinates, no overflow of squared distances (|coordinates| < 1e7), 1 <= k <= min(n, 50), n >= 1",
+        "finite coordinates, no overflow of squared distances in float (|coordinates| <= ~1e16, squared distances < ~3e32), "
+        "1 <= k <= min(n, 50), n >= 1",
         "g++ 12 ASan+UBSan runtime; asserts live (no -DNDEBUG)"],
 }
 
